@@ -23,7 +23,7 @@ for d in sorted(glob.glob('/verif/seeded/C*')):
     if os.path.exists(d + '/patch.orig.diff'):
         meta["files"]["patch_orig"] = "patch.orig.diff (as written, against the pinned snapshot e5ea942; patch.diff is the same change rebased by hand onto the tree with the fix: commits)"
     conf = []
-    for name, base in ((f'/tmp/confirm/out/{pid}{v}.json', 'pinned snapshot e5ea942'), (f'/tmp/confirm/out/rebased-{sid}.json', 'repaired tree (HEAD at the time), rebased patch'), (f'/tmp/confirm/out/head-{sid}.json', 'repaired tree (HEAD at the time)')):
+    for name, base in ((d + '/confirm.json', 'repaired tree (HEAD 8236cf6)'), (f'/tmp/confirm/out/{pid}{v}.json', 'pinned snapshot e5ea942'), (f'/tmp/confirm/out/rebased-{sid}.json', 'repaired tree (HEAD at the time), rebased patch'), (f'/tmp/confirm/out/head-{sid}.json', 'repaired tree (HEAD at the time)')):
         if os.path.exists(name):
             c = json.load(open(name))
             conf.append({"base": base, "ran": "tools/confirm_mutation.py (scratch worktree, removed afterwards): demonstration on the unchanged tree; git apply; go build ./... and go test -run '^$' in all four modules; demonstration with the change; the pinned suite (go test -json ./... in all four modules) compared with stable_pass of /root/.vp/BASELINE.json",
